@@ -160,6 +160,7 @@ func soak() {
 		for _, c := range calls {
 			func() {
 				defer func() { _ = recover() }()
+				tickProgress() // slow is not stuck: the watchdog counts calls that returned
 				_, _ = c.p.Exists(ctx, c.doc)
 				_, _ = c.p.ExistsOrMatch(ctx, c.doc, exec.WithSilent())
 				if r%10 == 0 {
@@ -181,6 +182,7 @@ func preSoak(n int) {
 	defer func() { _ = recover() }()
 	soakSerial += n
 	for i := soakSerial - n; i < soakSerial; i++ {
+		tickProgress()
 		if p, err := safeParse(fmt.Sprintf(`$."é%d"."ü%d" ? (@ == "日%d")`, i, i, i)); err == nil {
 			_ = p.String()
 		}
